@@ -1,5 +1,5 @@
 //@ include prelude/header.rs
-//@ unit U12 paint.rs superimpose_style_sections: explode, superimpose, coalesce whole - syntax highlighting only replaces the foreground (C15), every character is kept in its place with the styles of its own position (C01)
+//@ unit U12 paint.rs superimpose_style_sections: the function and its helpers explode, superimpose, coalesce whole - syntax highlighting only replaces the foreground (C15), every character is kept in its place with the styles of its own position (C01)
 verus! {
 //@ include prelude/base.rs
 //@ include prelude/std_assumed.rs
@@ -122,6 +122,42 @@ pub broadcast proof fn lemma_subrange_full<A>(s: Seq<A>)
 //@loop 1| invariant it.seq() == pairs, superimposed@.len() == it.index@,
 //@loop 1|     forall|i: int| 0 <= i < pairs.len() ==> (#[trigger] pairs[i]).0.1 == pairs[i].1.1,
 //@loop 1|     forall|i: int| 0 <= i < superimposed@.len() ==> #[trigger] superimposed@[i] == ((pairs[i].0.0, pairs[i].1.0), pairs[i].0.1),
+
+
+// ---------------------------------------------------------------- superimpose_style_sections itself: the three helpers put together
+/// the two per-character lists are not of the same text (as far as the shorter one goes)
+pub open spec fn text_differs(syn: Seq<(SyntectStyle, char)>, dif: Seq<(Style, char)>) -> bool {
+    exists|i: int| 0 <= i < syn.len() && i < dif.len() && (#[trigger] syn[i]).1 != dif[i].1
+}
+/// what goes into `coalesce`: position by position the syntax style and the diff style of the same character - or, when the
+/// two annotations are not of the same text, the diff style alone (with the null syntax style) for every character of the line
+pub open spec fn paired(syn: Seq<(SyntectStyle, char)>, dif: Seq<(Style, char)>, null: SyntectStyle) -> Seq<((SyntectStyle, Style), char)> {
+    if text_differs(syn, dif) { Seq::new(dif.len(), |i: int| ((null, dif[i].0), dif[i].1)) }
+    else { Seq::new(if syn.len() <= dif.len() { syn.len() } else { dif.len() }, |i: int| ((syn[i].0, dif[i].0), syn[i].1)) }
+}
+/// (R3) `syntax.iter().zip(&diff).any(|(s, d)| s.1 != d.1)`: some position, as far as the shorter list goes, holds different characters
+#[verifier::external_body]
+pub fn verif_any_text_differs(syntax: &Vec<(SyntectStyle, char)>, diff: &Vec<(Style, char)>) -> (r: bool)
+    ensures r == text_differs(syntax@, diff@)
+{ unimplemented!() }
+/// (R3) `diff.into_iter().map(|(style, c)| ((null_syntect_style, style), c)).collect()`
+#[verifier::external_body]
+pub fn verif_without_syntax(diff: Vec<(Style, char)>, null: SyntectStyle) -> (r: Vec<((SyntectStyle, Style), char)>)
+    ensures r@.len() == diff@.len(), forall|i: int| 0 <= i < r@.len() ==> #[trigger] r@[i] == ((null, diff@[i].0), diff@[i].1)
+{ unimplemented!() }
+/// (R3) `syntax.iter().zip(diff).collect::<Vec<_>>()`: pairs as far as the shorter list goes
+#[verifier::external_body]
+pub fn verif_zip_refs<'a>(syntax: &'a Vec<(SyntectStyle, char)>, diff: Vec<(Style, char)>) -> (r: Vec<(&'a (SyntectStyle, char), (Style, char))>)
+    ensures r@.len() == (if syntax@.len() <= diff@.len() { syntax@.len() } else { diff@.len() }),
+            forall|i: int| 0 <= i < r@.len() ==> *(#[trigger] r@[i]).0 == syntax@[i] && r@[i].1 == diff@[i]
+{ unimplemented!() }
+
+//@ fn src/paint.rs superimpose_style_sections::superimpose_style_sections
+//@| ensures ({ let p = paired(exploded_spec(syntax_style_sections@), exploded_spec(diff_style_sections@), null_syntect_style);
+//@|     flat(r@) =~= (if p.len() > 0 && p.last().1 == '\n' { superimposed_chars(p, p.len() - 1, true_color, null_syntect_style) } else { superimposed_chars(p, p.len() as int, true_color, null_syntect_style) }) }),  // @C01,C15:every.character.of.a.painted.line.comes.out.once.and.in.order.in.the.diff.style.of.its.own.position.with.the.syntax.foreground.of.its.own.position.or.in.its.diff.style.alone.when.the.two.annotations.are.not.of.the.same.text
+//@rewrite <<<syntax.iter().zip(&diff).any(|(s, d)| s.1 != d.1)>>> => <<<verif_any_text_differs(&syntax, &diff)>>>
+//@rewrite <<<diff.into_iter() .map(|(style, c)| ((null_syntect_style, style), c)) .collect()>>> => <<<verif_without_syntax(diff, null_syntect_style)>>>
+//@rewrite <<<syntax .iter() .zip(diff) .collect::<Vec<(&(SyntectStyle, char), (Style, char))>>()>>> => <<<verif_zip_refs(&syntax, diff)>>>
 
 } // verus!
 fn main() {}
